@@ -36,6 +36,13 @@ static void srcs_load(void) {
         closedir(D);
     }
     Src *s = &srcs[nsrcs++]; memset(s, 0, sizeof *s); strcpy(s->name, "multi"); s->multi = true;
+    /* a program whose code section outgrows every initial buffer of the compiler (hundreds of functions) */
+    { Buf b = {0};
+      for (int i = 0; i < 300; i++) buf_printf(&b, "fn f%d(x: int) -> int {\n    let y: int = (+ (* x %d) %d)\n    if (> y %d) { return (- y %d) }\n    return (+ y (str_length \"s%d\"))\n}\nshadow f%d { assert (== 1 1) }\n", i, i + 2, i * 7, i * 3, i, i, i);
+      buf_printf(&b, "fn main() -> int {\n    let mut acc: int = 0\n");
+      for (int i = 0; i < 300; i += 7) buf_printf(&b, "    set acc (+ acc (f%d %d))\n", i, i);
+      buf_printf(&b, "    (println (int_to_string acc))\n    return 0\n}\nshadow main { assert (== (main) 0) }\n"); buf_put(&b, "", 1);
+      s = &srcs[nsrcs++]; memset(s, 0, sizeof *s); strcpy(s->name, "gen_big300"); s->text = (char *)b.d; }
     qsort(srcs, (size_t)nsrcs, sizeof(Src), cmp_src);
 }
 
@@ -84,7 +91,7 @@ static bool plan_parse(EPlan *P, uint64_t *seed, const char *path) {
 }
 
 /* ---------------- one compile under a configuration ---------------- */
-typedef struct Outs { Buf nvm, genc, tmpc, out, err; int status; bool finished; } Outs;
+typedef struct Outs { Buf nvm, genc, tmpc, out, err; int status; bool finished; uint64_t rawhash; /* artifacts before the spelled module path is normalised */ } Outs;
 extern int alloc_junk_on, alloc_move_realloc, alloc_pad_pm; extern void alloc_seed(uint64_t);
 extern void sim_set_uid(unsigned), sim_set_epoch(uint64_t), sim_set_next_pid(int);
 extern Buf sim_system_log;
@@ -172,9 +179,12 @@ static void compile_once(EPlan *P, Cfg *c, uint64_t seed, Outs *o) {
         replace_all(bb[i], TMPS[c->tmpdir % 3], "<TMP>");
         collapse_dashes(bb[i]);
     }
+    { uint64_t h = 1469598103934665603ull; Buf *raw[3] = { &o->genc, &o->tmpc, &o->nvm };
+      for (int i = 0; i < 3; i++) for (size_t k = 0; k < raw[i]->len; k++) { h ^= raw[i]->d[k]; h *= 1099511628211ull; }
+      o->rawhash = h; }
     if (s->multi) {
-        /* the path of an imported module is embedded as spelled (module introspection, by design): the spelling of
-         * the source path is an input of the compilation, so it is normalised away before comparing */
+        /* the path of an imported module is embedded as spelled (module introspection): normalised here so that any
+         * OTHER difference is still seen; the embedding itself is reported separately (known finding) */
         static const char *dsp[] = { "/verif/corpus19/./multi", "/verif/corpus19/multi/../multi", "/verif//corpus19/multi" };
         Buf *all[5] = { &o->out, &o->err, &o->genc, &o->tmpc, &o->nvm };
         for (int i = 0; i < 4; i++) for (int k = 0; k < 3; k++) replace_all(all[i], dsp[k], "/verif/corpus19/multi");
@@ -183,7 +193,7 @@ static void compile_once(EPlan *P, Cfg *c, uint64_t seed, Outs *o) {
 }
 
 /* reference (configuration 0) cache, zygote side */
-typedef struct ERef { char key[64]; Outs o; bool have; } ERef;
+typedef struct ERef { char key[64]; Outs o; bool have; char crash_kind[64], crash_site[128]; } ERef;
 static ERef erefs[160]; static int nerefs;
 static ERef *eref_lookup(const char *key) { for (int i = 0; i < nerefs; i++) if (!strcmp(erefs[i].key, key)) return &erefs[i]; return NULL; }
 typedef struct RA { EPlan *P; } RA;
@@ -192,7 +202,7 @@ static void eref_child(void *a, int fd) {
     RA *ra = a; Cfg c0; cfg_zero(&c0); Outs o;
     default_knobs(); K.max_blocks = 3000000000ull;
     compile_once(ra->P, &c0, 1, &o);
-    uint32_t h[2] = { (uint32_t)o.status, (uint32_t)o.finished }; ssize_t w = __real_write(fd, h, 8); (void)w;
+    uint32_t h[4] = { (uint32_t)o.status, (uint32_t)o.finished, (uint32_t)o.rawhash, (uint32_t)(o.rawhash >> 32) }; ssize_t w = __real_write(fd, h, 16); (void)w;
     put_buf(fd, &o.nvm); put_buf(fd, &o.genc); put_buf(fd, &o.tmpc); put_buf(fd, &o.out); put_buf(fd, &o.err);
 }
 static size_t get_buf(uint8_t *d, size_t n, size_t off, Buf *b) { if (off + 4 > n) return n + 1; uint32_t l; memcpy(&l, d + off, 4); off += 4; if (off + l > n) return n + 1; buf_put(b, d + off, l); return off + l; }
@@ -202,11 +212,13 @@ static void fam_prepare(uint64_t seed, const RunOpts *o) {
     char key[64]; snprintf(key, sizeof key, "%s/%d", P.prog, P.tool);
     if (eref_lookup(key) || nerefs == 160) return;
     ERef *r = &erefs[nerefs++]; memset(r, 0, sizeof *r); snprintf(r->key, sizeof r->key, "%s", key);
-    RA ra = { &P }; Buf out = {0}; int st = 0; char role[48];
-    fork_collect(eref_child, &ra, &out, &st, role, sizeof role, NULL);
-    if (WIFEXITED(st) && WEXITSTATUS(st) == 0 && out.len >= 8) {
-        uint32_t h[2]; memcpy(h, out.d, 8); r->o.status = (int)h[0]; r->o.finished = h[1];
-        size_t off = 8;
+    RA ra = { &P }; Buf out = {0}, asan = {0}; int st = 0; char role[48];
+    fork_collect(eref_child, &ra, &out, &st, role, sizeof role, &asan);
+    if (!(WIFEXITED(st) && WEXITSTATUS(st) == 0)) asan_site(&asan, r->crash_kind, sizeof r->crash_kind, r->crash_site, sizeof r->crash_site);
+    buf_free(&asan);
+    if (WIFEXITED(st) && WEXITSTATUS(st) == 0 && out.len >= 16) {
+        uint32_t h[4]; memcpy(h, out.d, 16); r->o.status = (int)h[0]; r->o.finished = h[1]; r->o.rawhash = h[2] | (uint64_t)h[3] << 32;
+        size_t off = 16;
         off = get_buf(out.d, out.len, off, &r->o.nvm); off = get_buf(out.d, out.len, off, &r->o.genc); off = get_buf(out.d, out.len, off, &r->o.tmpc);
         off = get_buf(out.d, out.len, off, &r->o.out); off = get_buf(out.d, out.len, off, &r->o.err);
         r->have = off <= out.len;
@@ -223,6 +235,18 @@ static void fam_run(uint64_t seed, const RunOpts *o, Result *r) {
     plan_ready(r);
     char key[64]; snprintf(key, sizeof key, "%s/%d", P.prog, P.tool);
     ERef *ref = eref_lookup(key);
+    if (ref && !ref->have && strstr(ref->crash_kind, "buffer-overflow")) {
+        /* the compiler read or wrote outside one of its objects while compiling a well-formed input: what it emits then
+         * depends on neighbouring memory, i.e. on the memory layout of that process */
+        bool badinput = strncmp(P.prog, "bad_", 4) == 0;
+        if (!badinput) {
+            res_violation(r, "C19", "compiler-accesses-outside-object:%s:%s:%s", P.tool ? "nanoc" : "nano_virt", ref->crash_kind, ref->crash_site);
+            buf_printf(&r->detail, "%s on %s: AddressSanitizer %s in %s while compiling in configuration 0; the bytes involved end up in (or steer) the artifact, so the output is a function of memory layout\n",
+                       P.tool ? "nanoc" : "nano_virt", P.prog, ref->crash_kind, ref->crash_site);
+            r->nontrivial = 1; snprintf(r->class_key, sizeof r->class_key, "%s/crash", key);
+            return;
+        }
+    }
     if (!ref || !ref->have || !ref->o.finished) { strcpy(r->verdict, "skip"); buf_printf(&r->detail, "configuration 0 did not finish (compiler crash on this input is not C19's business)"); return; }
     static Outs cur;
     compile_once(&P, &P.c, seed, &cur);
@@ -240,6 +264,11 @@ static void fam_run(uint64_t seed, const RunOpts *o, Result *r) {
                        cmp[i].a->len, cmp[i].b->len, fd, (int)(cmp[i].a->len - ctx > 160 ? 160 : cmp[i].a->len - ctx), (char *)cmp[i].a->d + ctx,
                        (int)(cmp[i].b->len - ctx > 160 ? 160 : cmp[i].b->len - ctx), (char *)cmp[i].b->d + ctx);
         }
+    }
+    if (strcmp(r->verdict, "violation") != 0 && cur.finished && cur.rawhash != ref->o.rawhash) {
+        /* everything is equal once the spelled module path is normalised, but the raw artifacts differ */
+        res_violation(r, "C19", "module-path-embedded-as-spelled:%s", tool);
+        buf_printf(&r->detail, "%s on %s: generated C / bytecode embed the path of imported modules exactly as spelled on the command line (e.g. /verif/corpus19/multi/../multi/util.nano), so the same sources reached through a different spelling give different bytes\n", tool, P.prog);
     }
     r->nontrivial = cur.finished && (cur.nvm.len || cur.genc.len || cur.tmpc.len || cur.out.len || cur.err.len);
     snprintf(r->class_key, sizeof r->class_key, "%s/%llu", key, (unsigned long long)seed);
